@@ -2,7 +2,9 @@ package main
 
 import (
 	"fmt"
+	"os"
 	"runtime"
+	"strings"
 	"verif/engine"
 
 	"github.com/brewlin/net-protocol/pkg/waiter"
@@ -87,7 +89,22 @@ func probeTrace(job string) {
 }
 
 func probeRawTrace(job string) {
-	r := RunRaw(ParseRawCfg(job), nil)
+	var prefix []int
+	if len(os.Args) > 3 {
+		for _, t := range strings.Split(os.Args[3], ",") {
+			var v int
+			fmt.Sscan(t, &v)
+			prefix = append(prefix, v)
+		}
+	}
+	r := RunRaw(ParseRawCfg(job), prefix)
+	if lastWorld != nil {
+		for _, f := range lastWorld.All {
+			if d, err := DecodeFrame(f); err == nil && d.TCP != nil {
+				fmt.Printf("  emitted #%d at %v: flags %#02x seq %d ack %d len %d totlen %d\n", f.Seq, f.At, d.TCP.Flags, d.TCP.Seq, d.TCP.Ack, len(d.TCP.Payload), d.TotLen)
+			}
+		}
+	}
 	for i, t := range r.Trace {
 		fmt.Println(i, t)
 		if i > 150 {
